@@ -1320,7 +1320,7 @@ def RT3OK : Field → GoVal → Prop
         vkindOf info.tf.valueType = .list ∧ vkindOf info.tf.elemValueType = .obj ∧
           ∀ e ∈ sliceElems (getVal info obj), MsgTyped info.isNullable (fun s => RT3OKs sub s) e
       | .primitiveMap =>
-        vkindOf info.tf.valueType = .map ∧ info.isPlaceholder = false ∧ info.isNullable = false ∧
+        vkindOf info.tf.valueType = .map ∧ info.isPlaceholder = false ∧
           (mapVal.getD info).tf.elemValueType = info.tf.elemValueType ∧
           ((mapElems (getVal info obj)).map (·.1)).Nodup ∧
           ∃ k, PrimRT info k ∧ ∀ e ∈ mapElems (getVal info obj), PrimVal info e.2
@@ -1761,7 +1761,7 @@ theorem fromField_reads3 (ov : List (String × String)) : ∀ (f : Field) (obj :
           simp [zeroGoOf, hk, sliceElems]
       | primitiveMap =>
         simp only [hk] at hok hr ⊢
-        obtain ⟨hvt, _, hnn, hev, hnd, k, hrt, hT⟩ := hok
+        obtain ⟨hvt, _, hev, hnd, k, hrt, hT⟩ := hok
         have hv := vkind_ok a .map (mapRenders_vkind _ _ _ hr) (by decide)
         rw [← hvt] at hv
         have hb := elemReads3_of _ _ _ _ (elemReads_prim
